@@ -23,6 +23,8 @@ import (
 	"time"
 
 	"go.opentelemetry.io/otel/attribute"
+	"github.com/go-logr/logr"
+	"go.opentelemetry.io/otel"
 	"go.opentelemetry.io/otel/codes"
 	sdktrace "go.opentelemetry.io/otel/sdk/trace"
 	"go.opentelemetry.io/otel/trace"
@@ -882,6 +884,122 @@ func dedupeStorm(w *vgen.Writer, n int) int {
 	return anomalies
 }
 
+// slowSink: a logr sink that takes its time (the SDK logs "dropping attributes" etc. while holding the span lock).
+type slowSink struct{}
+
+func (slowSink) Init(logr.RuntimeInfo)  {}
+func (slowSink) Enabled(level int) bool { return true }
+func (slowSink) Info(level int, msg string, kv ...any) {
+	runtime.Gosched()
+	time.Sleep(time.Duration(50+len(msg)*7%450) * time.Microsecond)
+}
+func (slowSink) Error(err error, msg string, kv ...any) { runtime.Gosched() }
+func (s slowSink) WithValues(...any) logr.LogSink        { return s }
+func (s slowSink) WithName(string) logr.LogSink          { return s }
+
+// slowLogger installs the slow sink as the SDK's logger until the returned function is called.
+func slowLogger(on bool) func() {
+	if !on {
+		return func() {}
+	}
+	otel.SetLogger(logr.New(slowSink{}))
+	return func() { otel.SetLogger(logr.Discard()) }
+}
+
+// wantSlowLog: attribute limit small enough that the first drop happens inside a multi-key call.
+func wantSlowLog(lims [3]int, r *vgen.Rand) bool { return lims[0] >= 1 && lims[0] <= 5 && r.Chance(2, 3) }
+
+// dropView: number of attributes, dropped count, value of attribute "a".
+func dropView(s sdktrace.ReadOnlySpan) [3]int {
+	v := [3]int{0, s.DroppedAttributes(), 0}
+	for _, kv := range s.Attributes() {
+		v[0]++
+		if kv.Key == "a" {
+			v[2] = int(kv.Value.AsInt64())
+		}
+	}
+	return v
+}
+
+type dropObs struct {
+	mu   sync.Mutex
+	seen map[trace.SpanID][3]int
+}
+
+func (p *dropObs) OnStart(context.Context, sdktrace.ReadWriteSpan) {}
+func (p *dropObs) OnEnd(s sdktrace.ReadOnlySpan) {
+	p.mu.Lock()
+	p.seen[s.SpanContext().SpanID()] = dropView(s)
+	p.mu.Unlock()
+}
+func (p *dropObs) Shutdown(context.Context) error   { return nil }
+func (p *dropObs) ForceFlush(context.Context) error { return nil }
+
+// dropStorm: AttributeCountLimit 2, a slow logger; per span one goroutine calls SetAttributes with three new keys
+// (the second one is the span's first drop: the warning is logged, slowly, inside that call), the other Ends the
+// span, released together. The delivered snapshot shows the call entirely (2 attributes, 1 dropped) or not at all
+// (0, 0), and the live span read afterwards shows the same.
+func dropStorm(w *vgen.Writer, n int) int {
+	anomalies := 0
+	const batch = 1000
+	for done := 0; done < n && !stuck.Load(); done += batch {
+		m := min(batch, n-done)
+		desc := map[string]any{"fragment": "drop-storm", "spans": m}
+		watchdog(w, "drop storm", desc, 30*time.Second, func(w *proxy) {
+			defer slowLogger(true)()
+			obs := &dropObs{seen: map[trace.SpanID][3]int{}}
+			tp := sdktrace.NewTracerProvider(sdktrace.WithSpanProcessor(obs),
+				sdktrace.WithRawSpanLimits(sdktrace.SpanLimits{AttributeValueLengthLimit: -1, AttributeCountLimit: 2, EventCountLimit: -1, LinkCountLimit: -1, AttributePerEventCountLimit: -1, AttributePerLinkCountLimit: -1}))
+			tr := tp.Tracer("c10")
+			spans := make([]trace.Span, m)
+			for i := range spans {
+				_, spans[i] = tr.Start(context.Background(), "root", trace.WithNewRoot())
+			}
+			var at [2]atomic.Int64
+			var wg sync.WaitGroup
+			for g := 0; g < 2; g++ {
+				wg.Add(1)
+				go func(g int) {
+					defer wg.Done()
+					for i := 0; i < m; i++ {
+						at[g].Store(int64(i + 1))
+						for k := 0; at[1-g].Load() < int64(i+1); k++ {
+							if k&63 == 63 {
+								runtime.Gosched()
+							}
+						}
+						if (g == 0) == (i&1 == 0) {
+							spans[i].SetAttributes(attribute.Int("a", 1), attribute.Int("b", 1), attribute.Int("c", 1), attribute.Int("a", 2))
+						} else {
+							if i%3 == 0 {
+								time.Sleep(30 * time.Microsecond) // let the other call get into its log message
+							}
+							spans[i].End()
+						}
+					}
+				}(g)
+			}
+			wg.Wait()
+			bad := 0
+			for i, sp := range spans {
+				ro := sp.(sdktrace.ReadOnlySpan)
+				got := obs.seen[sp.SpanContext().SpanID()]
+				live := dropView(ro)
+				if (got != [3]int{0, 0, 0} && got != [3]int{2, 1, 2}) || live != got {
+					bad++
+					if bad == 1 {
+						w.Violation(fmt.Sprintf("SetAttributes (3 new keys, limit 2) racing End: delivered snapshot shows [attributes, dropped, value of a] = %v, the ended span read afterwards %v (must be [0 0 0] or [2 1 2], and the same)", got, live),
+							map[string]any{"fragment": "drop-storm", "span_in_batch": i})
+					}
+				}
+			}
+			anomalies += bad
+			w.Tally("drop-storm:batch")
+		})
+	}
+	return anomalies
+}
+
 // ---- generators ----
 
 func genOp(r *vgen.Rand, endWeight int) op {
@@ -1133,7 +1251,10 @@ func raceCase(w *vgen.Writer, r *vgen.Rand, tracing bool, kind string, storm boo
 		}
 	}
 	desc := map[string]any{"fragment": "racing", "processors": P, "spans": K, "goroutines": G, "runtime_trace": tracing, "storm": storm, "limits": lims}
+	slow := wantSlowLog(lims, r)
+	desc["slow_logger"] = slow
 	ok := watchdog(w, "racing goroutines", desc, 30*time.Second, func(w *proxy) {
+		defer slowLogger(slow)()
 		e := newEnvLim(P, lims)
 		spans := make([]trace.Span, K)
 		tracks := make([]*spanTrack, K)
@@ -1222,7 +1343,13 @@ func stormLoop(w *vgen.Writer, r *vgen.Rand, tracing bool, trials int, kind stri
 			n = min(n, 400) // these batches sleep per span: keep them short
 		}
 		desc := map[string]any{"fragment": "end-storm", "runtime_trace": tracing, "spans": n, "goroutines": G, "processors": P, "limits": lims, "end_while_panicking": panicking, "gated_child": gated}
+		slow := wantSlowLog(lims, r)
+		desc["slow_logger"] = slow
+		if slow {
+			n = min(n, 1500) // one slow message per span
+		}
 		watchdog(w, "End storm", desc, 60*time.Second, func(w *proxy) {
+			defer slowLogger(slow)()
 			e := newEnvLim(P, lims)
 			spans := make([]trace.Span, n)
 			tracks := make([]*spanTrack, n)
@@ -1428,6 +1555,8 @@ func main() {
 		t0 := time.Now()
 		nStatus := o.Count(300000, 3000000)
 		sa := statusStorm(w, nStatus)
+		ndr := o.Count(4000, 40000)
+		w.Extra["drop_storm"] = fmt.Sprintf("%d spans, SetAttributes over the limit racing End under a slow logger, %d anomalies", ndr, dropStorm(w, ndr))
 		nd := o.Count(100000, 1000000)
 		da := dedupeStorm(w, nd)
 		w.Extra["dedupe_storm"] = fmt.Sprintf("%d spans with repeated keys, End racing Attributes() on the live span, %d anomalies", nd, da)
